@@ -379,7 +379,7 @@ def eval_coq(tag: str, preamble: str, terms: list[str], shard: int = 400, jobs: 
 
     def launch(path):
         return subprocess.Popen(
-            ["bash", "-c", f"ulimit -s unlimited 2>/dev/null; exec timeout {timeout} coqc -Q {COQ_EVAL or COQ} DH {path}"],
+            ["bash", "-c", f"ulimit -s unlimited 2>/dev/null; ulimit -v {COQC_MEM_KB}; exec timeout {timeout} coqc -Q {COQ_EVAL or COQ} DH {path}"],
             stdout=subprocess.PIPE, stderr=subprocess.STDOUT, text=True, cwd=d)
 
     pending = list(enumerate(files))
@@ -417,6 +417,7 @@ def eval_coq(tag: str, preamble: str, terms: list[str], shard: int = 400, jobs: 
 
 
 # ----------------------------------------------------------------------------- worker
+COQC_MEM_KB = 10_000_000   # address-space cap per coqc evaluating cases (typical use is below 2 GB): a term that explodes ends as a coq-error
 MAX_FAULTS = 8           # per suite: hang / crash / oom outcomes after which the remaining cases are skipped
 FAULT_SECONDS = 150.0    # ... or this much time spent waiting for them
 
